@@ -198,12 +198,13 @@ class RealRun(Harness):
     BAD = ['refused', 'unresolvable', 'silent', 'early-close', 'bad-block-size', 'truncated-kexinit', 'garbage-kexinit', 'probe-garbage', 'type-byte-only-kexinit', 'probe-type-byte-only',
            'ssh1-fallback', 'unresolvable-idna', 'packet-text-forges-ruler', 'header-forges-ruler']
 
-    def __init__(self, bad, pos, json, verbose=False, colors=False):
-        self.bad, self.pos, self.json, self.verbose, self.colors = bad, pos, json, verbose, colors
-        self.name = 'realrun-%s-at%d-%s%s%s' % (bad, pos, 'json' if json else 'text', '-v' if verbose else '', '-colors' if colors else '')
+    def __init__(self, bad, pos, json, verbose=False, colors=False, rev=False):
+        # rev: the targets finish in the reverse of the order in which they are listed (several worker threads)
+        self.bad, self.pos, self.json, self.verbose, self.colors, self.rev = bad, pos, json, verbose, colors, rev
+        self.name = 'realrun-%s-at%d-%s%s%s%s' % (bad, pos, 'json' if json else 'text', '-v' if verbose else '', '-colors' if colors else '', '-rev' if rev else '')
 
     def params(self):
-        return {'bad': self.bad, 'pos': self.pos, 'json': self.json, 'verbose': self.verbose, 'colors': self.colors}
+        return {'bad': self.bad, 'pos': self.pos, 'json': self.json, 'verbose': self.verbose, 'colors': self.colors, 'rev': self.rev}
 
     def inputs(self):
         x = zx.fresh_bytes('x', 1)
@@ -278,9 +279,9 @@ class RealRun(Harness):
         aconf.skip_rate_test = True
         aconf.colors = self.colors           # colours on (the default on a terminal): a JSON document must not carry terminal colour codes
         aconf.target_list = list(hosts)
-        aconf.threads = 1
+        aconf.threads = 2 if self.rev else 1
         cap = []
-        sc = StubConcurrent([0, 1])
+        sc = StubConcurrent([1, 0] if self.rev else [0, 1])
         import io, contextlib
         buf = io.StringIO()
         with AE.patched(M.ssh_audit, concurrent=sc, json=AE.ConcJson, process_commandline=lambda out, args: aconf), AE.patched(M.ssh_socket, socket=net):
@@ -300,7 +301,12 @@ class RealRun(Harness):
             try:
                 v = _json.loads(text)
                 js = isinstance(v, list) and len(v) == 2
-                jt = js and [e.get('target') if isinstance(e, dict) else None for e in v] == [h + ':22' for h in hosts]
+                done = list(reversed(hosts)) if self.rev else hosts
+                jt = js and [e.get('target') if isinstance(e, dict) else None for e in v] == [h + ':22' for h in done]
+                # an element that reports an error names the target the error is about
+                for e in (v if js else []):
+                    if isinstance(e, dict) and 'error' in e and 'banner' not in e:
+                        jt = jt and (e.get('target') == 'bad:22')
             except ValueError:
                 js = jt = False
         return {'ret': r, 'json_ok': js, 'json_targets': jt, 'seps': len([ln for ln in text.split('\n') if ln == '-' * 80]),
@@ -432,6 +438,10 @@ def tasks(tier):
         for json in (False, True):
             T.append(FileRun(n, json))
     T.append(FileRun(1, True, True))
+    for bad in ('refused', 'early-close', 'unresolvable'):
+        for pos in (0, 1):
+            T.append(RealRun(bad, pos, True, rev=True))
+        T.append(RealRun(bad, 1, False, rev=True))
     for bad in ('refused', 'early-close', 'probe-garbage'):
         T.append(RealRun(bad, 1, True, verbose=True))      # (in text mode -v status lines between the blocks are intended)
         T.append(RealRun(bad, 0, True, verbose=True))
@@ -449,7 +459,7 @@ def harness_by_name(name, params):
     if k == 'filerun':
         return FileRun(p['n'], p['json'], p.get('ported', False))
     if k == 'realrun':
-        return RealRun(p['bad'], p['pos'], p['json'], p.get('verbose', False), p.get('colors', False))
+        return RealRun(p['bad'], p['pos'], p['json'], p.get('verbose', False), p.get('colors', False), p.get('rev', False))
     raise KeyError(name)
 
 
